@@ -124,6 +124,7 @@ type gen struct {
 	r       *hx.Rng
 	term    int64 // highest term used in a NewTerm request
 	nextSid int
+	raced   bool // one NewTerm-vs-in-flight-request race per schedule (each costs a bounded wait)
 	pay     int64
 	plan    map[int64][3]int64 // term -> honest decision: kind (0 none,1 invalid,2 trunc), t, o
 	done    map[int64]bool     // term -> the follower's log has been brought in line (truncate done or not needed)
@@ -378,6 +379,31 @@ func (g *gen) step() {
 				h.doAppend(s.sid, e, commit)
 			})
 		}
+		for _, s := range recv {
+			s := s
+			if g.raced {
+				break
+			}
+			add(1, func() {
+				_, _, _, hd := g.curStatus()
+				e, ok := g.leaderEntry(s.term, hd+1)
+				if !ok {
+					return
+				}
+				g.raced = true
+				t := g.term + 2
+				g.term = t
+				n := len(h.outs)
+				h.doNewTermRacingAppend(t, s.sid, e)
+				for _, out := range h.outs[n:] {
+					if ht, ho, ok := lastHeadOf(out); ok {
+						if _, known := h.terms[t]; !known {
+							g.electLeader(t, ht, ho)
+						}
+					}
+				}
+			})
+		}
 		for _, s := range busy {
 			s := s
 			add(9, func() { h.doSyncEnd(s.sid) })
@@ -437,6 +463,22 @@ func (g *gen) step() {
 				}
 			}
 		})
+		if st == "leader" && !g.raced {
+			add(1, func() {
+				g.raced = true
+				t := g.term + 2
+				g.term = t
+				n := len(h.outs)
+				h.doNewTermRacingWrite(t, g.fresh())
+				for _, out := range h.outs[n:] {
+					if ht, ho, ok := lastHeadOf(out); ok {
+						if _, known := h.terms[t]; !known {
+							g.electLeader(t, ht, ho)
+						}
+					}
+				}
+			})
+		}
 		if st == "fenced" {
 			add(4, func() { h.doBecomeLeader(term) })
 			add(3, func() {
@@ -560,6 +602,10 @@ func runScript(o *hx.Out, actions string, logs string, key string) {
 			h.doBecomeLeader(atoi(f[1]))
 		case "CW":
 			h.doClientWrite(atoi(f[1]))
+		case "NTAP": // NewTerm parked after its wal.Sync, an Append delivered meanwhile
+			h.doNewTermRacingAppend(atoi(f[1]), int(atoi(f[2])), ent{atoi(f[3]), atoi(f[4]), atoi(f[5])})
+		case "NTCW": // NewTerm (leader) parked after its wal.Sync, a client write issued meanwhile
+			h.doNewTermRacingWrite(atoi(f[1]), atoi(f[2]))
 		case "CWNT": // client write stopped before its WAL append, NewTerm, then the append
 			h.doWriteRacingNewTerm(atoi(f[1]), atoi(f[2]))
 		case "LS":
@@ -585,6 +631,11 @@ var builtin = [][2]string{
 	{"NT:2;RO:1:2;AP:1:2:0:1:-1;AP:1:2:1:2:-1;NT:4;TR:4:-1:-1;RO:2:4;AP:2:4:0:5:-1;AP:2:4:1:6:-1;SE:1;SE:2", "2=ok=2:0:1,2:1:2/4=ok=4:0:5,4:1:6"},
 	// leader: writes in flight (appended, sync pending) when NewTerm arrives; write racing NewTerm
 	{"NT:2;BL:2;CW:1;LS;CW:2;CW:3;NT:4;LS;BL:4;CW:4;CWNT:5:6;LS;NT:8;BL:8;CW:6;LS", "-"},
+	// NewTerm's flush must be in the same critical section as the head report: an Append of the old term handled between
+	// the two is missed by the report, becomes durable later and shadows the new leader's entry at that offset
+	{"NT:2;RO:1:2;AP:1:2:0:1:-1;SE:1;NTAP:4:1:2:1:2;BR:1;RO:2:4;AP:2:4:1:7:-1;SE:2", "2=ok=2:0:1,2:1:2/4=ok=2:0:1,4:1:7"},
+	// ... same for the leader controller: a client write accepted between NewTerm's flush and its critical section
+	{"NT:2;BL:2;CW:1;LS;NTCW:4:2;LS;BL:4;CW:3;LS", "-"},
 	// residual hole of one-round truncation by entry id (known finding): follower [a(2);b(2);c(2);d(6)] vs
 	// leader [x(4);w(8)]: the honest request (4,0) leaves a,b,c which the leader does not have
 	{"NT:2;RO:1:2;AP:1:2:0:1:-1;AP:1:2:1:2:-1;AP:1:2:2:3:-1;SE:1;BR:1;NT:6;RO:2:6;AP:2:6:3:4:-1;SE:2;BR:2;NT:10;TR:10:4:0;RO:3:10;AP:3:10:2:13:-1;AP:3:10:3:14:-1;SE:3",
